@@ -202,6 +202,13 @@ ApplyM(doc, m) ==
 ReleaseStops(m) == m.class = "reject" => m.alwayson
 DebugOnlyRejections(sph) == {Catalogue(sph)[k].name : k \in {j \in 1..Len(Catalogue(sph)) : ~ReleaseStops(Catalogue(sph)[j])}}
 
+(* Two edits are combined only when neither replaces or removes a container the other one addresses (after
+   "features" := <<>> an edit below features[i] has nothing to apply to, and the pair is just the first edit)
+   and they do not address the same object. *)
+Target(m) == m.path \o <<m.key>>
+Independent(m1, m2) == /\ m1.path # m2.path
+                       /\ ~IsPrefix(Target(m1), m2.path)
+                       /\ ~IsPrefix(Target(m2), m1.path)
 Combine(c1, c2) == IF c1 = "reject" \/ c2 = "reject" THEN "reject" ELSE "any"
 
 (***************************************************************************)
@@ -214,7 +221,7 @@ Next == \/ /\ idx = <<>>
            /\ \E k \in 1..Len(Cat) : idx' = <<k>>
            /\ UNCHANGED sphv
         \/ /\ Pairs /\ Len(idx) = 1 /\ InReduced(Cat[idx[1]])
-           /\ \E k \in 1..Len(Cat) : Cat[k].path # Cat[idx[1]].path /\ idx' = Append(idx, k)
+           /\ \E k \in 1..Len(Cat) : Independent(Cat[idx[1]], Cat[k]) /\ idx' = Append(idx, k)
            /\ UNCHANGED sphv
 muts == [i \in 1..Len(idx) |-> Cat[idx[i]]]
 
